@@ -41,8 +41,9 @@ TRUSTED = ["models of the keyFor family / JS Map / emitted map operations / emit
            "harness/js/c15_driver.js and the template extraction in harness/py/props/c15.py"]
 ASSUMPTIONS = ["single goroutine: no map mutation by other goroutines during a range loop",
                "key_iff_eq: the dynamic types met form one record per type id (true by construction of $typeIDCounter)",
-               "map_refines / unhashable_throws exclude key types that are uncomparable only through a blank struct field "
-               "(refuted on the current code: known finding blank-unhashable-field-no-panic)",
+               "the type objects' comparable flags are exact (true when types are initialised in dependency order, as the node driver "
+               "does; NOT true in compiled programs for composite types created before a named struct element type's init(): known "
+               "finding stale-comparable-flag-no-panic, probed by a compiled program)",
                "range_law: live keys of the Map are pairwise distinct (proved for every Map reachable from new Map() by set/delete)",
                "the map's own copy of an array/struct key (cloning at m[k] = v) is not part of the Coq model (values are immutable there); "
                "it is checked on compiled programs: every store goes through one reused key variable and what range yields is compared with native Go"]
@@ -52,14 +53,14 @@ LEVEL_TEXT = ("Machine-checked theorems over an executable model of the keyFor f
               "emitted range loop (the code after the fix commits): escape+join is injective for fixed arity (any lists of strings); FULL "
               "key_iff_eq: for every key type and any two keys computed at any two moments of a run the JS Map identifies them iff Go's == "
               "holds (NaN, +-0, complex, blank fields, interfaces by type id, nesting); every history of set/get/comma-ok/delete/len/"
-              "literal/nil answers and holds what an abstract Go map does; nil maps; unhashable keys throw (one remaining defect class "
-              "excluded and refuted); range over a map for every body script: visits only live entries with current values, final map = "
+              "literal/nil answers and holds what an abstract Go map does; nil maps; unhashable keys throw (full, "
+              "given exact comparable flags); range over a map for every body script: visits only live entries with current values, final map = "
               "initial + body's mutations, an entry present throughout is visited exactly once.")
 LEVEL_NOTE = ("Proof is about the hand-written model; the tie to /repo is differential on every run: node histories on the real prelude "
               "type constructors with the emitted operation snippets (exact key text / contents / $idCounter comparison) + compiled "
               "programs vs native Go (incl. key aliasing through a reused key variable) + per-kind keyFor table regenerated from types.js. "
-              "Number printing is a trusted parameter with stated hypotheses (checked on the floats used). One defect class of /repo is "
-              "recorded as a known finding (known_findings.d/C15.txt).")
+              "Number printing is a trusted parameter with stated hypotheses (checked on the floats used). One defect class of /repo (stale "
+              "comparable flag of composite types created before a named struct's init) is recorded as a known finding.")
 
 
 # ---------------------------------------------------------------- templates: the map operations as the compiler emits them
@@ -172,7 +173,7 @@ def gen_tables():
     ifk_ok = ifk.startswith("var$ifaceKeyFor=x=>{if(x===$ifaceNil){return'nil';}varc=x.constructor;returnc.string+'$'+c.keyFor(x.$val);};")
     variant = probe_iface_variant()
     if variant != "string":
-        ifk_ok = variant == "id" and ifk.startswith("var$ifaceKeyFor=x=>{if(x===$ifaceNil){return'nil';}varc=x.constructor;returnc.id+'$'+c.keyFor(x.$val);};")
+        ifk_ok = variant == "id" and ifk.startswith("var$ifaceKeyFor=x=>{if(x===$ifaceNil){return'nil';}varc=x.constructor;if(c.comparable===false){$throwRuntimeError(\"hashofunhashabletype\"+c.string);}returnc.id+'$'+c.keyFor(x.$val);};")
     native = re.findall(r"case \$kind(\w+):\s*return (\w+);", _between(src, r"var \$nativeArray = ", 900))
     txt = ["(* generated by harness/py/props/c15.py from compiler/prelude/types.js and numeric.js — do not edit *)",
            "From Coq Require Import List String NArith.", "Import ListNotations.", "Local Open Scope string_scope.",
